@@ -38,3 +38,121 @@ Definition lz4_wrap (input_size : N) (lz4_bytes : bytes) : bytes := fixed_encode
 Definition lz4_unwrap (stored : bytes) : option (N * bytes) :=
   if len stored <? 4 then None
   else match fixed_decode32 stored with Some n => Some (n, drop 4 stored) | None => None end.
+
+(* ---- the wrappers' control flow around the four libraries ----------------------------
+   Everything mtbl's own code decides: the INT_MAX gates, the level clamps, the capacity of
+   the destination handed to each library, the LZ4 length prefix, the zstd content-size path,
+   the zlib inflate grow loop, which outcome is a failure and which an assert.  The libraries
+   are parameters (oracles); their documented bound formulas are written out so that the
+   capacity obligations are theorems, and engine c15 compares the formulas with the real
+   LZ4_compressBound / ZSTD_compressBound / snappy_max_compressed_length. *)
+Definition INT_MAX : N := 2147483647.
+Definition LZ4_MAX_INPUT_SIZE : N := 2113929216.   (* 0x7E000000 *)
+Definition lz4_bound (n : N) : N := if LZ4_MAX_INPUT_SIZE <? n then 0 else n + n / 255 + 16.
+Definition zstd_bound (n : N) : N := n + n / 256 + (if n <? 131072 then (131072 - n) / 2048 else 0).
+Definition snappy_bound (n : N) : N := 32 + n + n / 6.
+(* zstd: twice the bound when that is small ("compression runs faster") *)
+Definition zstd_capacity (n : N) : N := let b := zstd_bound n in if b <? INT_MAX / 2 then 2 * b else b.
+(* zlib inflate: first guess 4n rounded to the next KiB boundary above *)
+Definition inflate_cap0 (n : N) : N := 4 * n - (4 * n) mod 1024 + 1024.
+
+Inductive cres := COk (out : bytes) | CFail | CAbort.
+Inductive infl := IEnd (out : bytes) | IBuf | IOther.   (* Z_STREAM_END, Z_BUF_ERROR, anything else *)
+
+Record libs := mklibs {
+  lz4_c : bytes -> N -> option bytes;            (* LZ4_compress_default src dstCapacity; None = 0 *)
+  lz4hc_c : bytes -> N -> Z -> option bytes;     (* LZ4_compress_HC *)
+  lz4_d : bytes -> N -> option bytes;            (* LZ4_decompress_safe src dstCapacity; None = negative *)
+  zstd_min : Z; zstd_max : Z;                    (* ZSTD_minCLevel / ZSTD_maxCLevel *)
+  zstd_c : bytes -> N -> Z -> option bytes;      (* ZSTD_compress; None = ZSTD_isError *)
+  zstd_size : bytes -> option N;                 (* ZSTD_getFrameContentSize; None = ERROR / UNKNOWN *)
+  zstd_d : bytes -> N -> option bytes;           (* ZSTD_decompress dstCapacity *)
+  snappy_c : bytes -> N -> option bytes;         (* snappy_compress with *output_length = capacity *)
+  snappy_len : bytes -> option N;                (* snappy_uncompressed_length *)
+  snappy_d : bytes -> N -> option bytes;         (* snappy_uncompress *)
+  zl_init_ok : Z -> bool;                        (* deflateInit(level) == Z_OK *)
+  zl_bound : Z -> N -> N;                        (* deflateBound *)
+  zl_deflate : bytes -> N -> Z -> option bytes;  (* deflate(Z_FINISH) with avail_out = capacity: Some = Z_STREAM_END, all input consumed *)
+  zl_end_ok : bool;                              (* deflateEnd == Z_OK *)
+  zl_inflate : bytes -> N -> infl;               (* inflate(Z_FINISH) once the output space offered so far totals the capacity *)
+}.
+
+Section Wrappers.
+Variable L : libs.
+
+Definition compress_lz4 (input : bytes) : cres :=
+  let n := len input in
+  if INT_MAX <? n then CFail else
+  match lz4_c L input (lz4_bound n) with None => CFail | Some z => COk (lz4_wrap n z) end.
+Definition compress_lz4hc (level : Z) (input : bytes) : cres :=
+  let n := len input in
+  if INT_MAX <? n then CFail else
+  match lz4hc_c L input (lz4_bound n) (lz4hc_level level) with None => CFail | Some z => COk (lz4_wrap n z) end.
+Definition decompress_lz4 (stored : bytes) : cres :=
+  let n := len stored in
+  if (INT_MAX <? n) || (n <? 4) then CFail else
+  match lz4_unwrap stored with
+  | None => CFail
+  | Some (size, body) => match lz4_d L body size with None => CFail | Some out => COk out end
+  end.
+Definition compress_zstd (level : Z) (input : bytes) : cres :=
+  let n := len input in
+  if INT_MAX <? n then CFail else
+  match zstd_c L input (zstd_capacity n) (zstd_level (zstd_min L) (zstd_max L) level) with None => CFail | Some z => COk z end.
+Definition decompress_zstd (stored : bytes) : cres :=
+  if INT_MAX <? len stored then CFail else
+  match zstd_size L stored with
+  | None => CFail
+  | Some size => match zstd_d L stored size with None => CFail | Some out => COk out end
+  end.
+Definition compress_snappy (input : bytes) : cres :=
+  match snappy_c L input (snappy_bound (len input)) with None => CFail | Some z => COk z end.
+Definition decompress_snappy (stored : bytes) : cres :=
+  match snappy_len L stored with
+  | None => CFail
+  | Some size => match snappy_d L stored size with None => CFail | Some out => COk out end
+  end.
+Definition compress_zlib (level : Z) (input : bytes) : cres :=
+  let l := zlib_level level in
+  if negb (zl_init_ok L l) then CAbort else
+  match zl_deflate L input (zl_bound L l (len input)) l with
+  | None => CAbort
+  | Some z => if zl_end_ok L then COk z else CFail
+  end.
+Fixpoint inflate_loop (fuel : nat) (stored : bytes) (cap : N) : cres :=
+  match fuel with
+  | O => CAbort     (* out of fuel: excluded by the theorems (64 doublings exceed any size_t) *)
+  | S f => match zl_inflate L stored cap with
+           | IEnd out => COk out
+           | IBuf => inflate_loop f stored (2 * cap)
+           | IOther => CAbort
+           end
+  end.
+Definition decompress_zlib (stored : bytes) : cres := inflate_loop 64 stored (inflate_cap0 (len stored)).
+
+(* mtbl_compress_level / mtbl_compress / mtbl_decompress *)
+Definition wrapper_compress_level (alg : N) (level : Z) (input : bytes) : cres :=
+  if alg =? COMP_SNAPPY then compress_snappy input
+  else if alg =? COMP_ZLIB then compress_zlib level input
+  else if alg =? COMP_LZ4 then compress_lz4 input
+  else if alg =? COMP_LZ4HC then compress_lz4hc level input
+  else if alg =? COMP_ZSTD then compress_zstd level input
+  else CFail.
+Definition wrapper_compress (alg : N) (input : bytes) : cres := wrapper_compress_level alg (default_level alg) input.
+Definition wrapper_decompress (alg : N) (stored : bytes) : cres :=
+  if alg =? COMP_SNAPPY then decompress_snappy stored
+  else if alg =? COMP_ZLIB then decompress_zlib stored
+  else if (alg =? COMP_LZ4) || (alg =? COMP_LZ4HC) then decompress_lz4 stored
+  else if alg =? COMP_ZSTD then decompress_zstd stored
+  else CFail.
+End Wrappers.
+
+(* what the wrapper hands to the library for an input of n bytes: (level, destination capacity);
+   executable, compared by engine c15 with the arguments recorded at the library boundary *)
+Definition plan_compress (zmin zmax : Z) (alg : N) (level : Z) (n : N) : option (Z * N) :=
+  if alg =? COMP_SNAPPY then Some (0%Z, snappy_bound n)
+  else if alg =? COMP_ZLIB then Some (zlib_level level, 0)       (* capacity = deflateBound: the library's own *)
+  else if alg =? COMP_LZ4 then if INT_MAX <? n then None else Some (0%Z, lz4_bound n)
+  else if alg =? COMP_LZ4HC then if INT_MAX <? n then None else Some (lz4hc_level level, lz4_bound n)
+  else if alg =? COMP_ZSTD then if INT_MAX <? n then None else Some (zstd_level zmin zmax level, zstd_capacity n)
+  else None.
